@@ -35,8 +35,17 @@ HINTS = {
 }
 PARAM_V = 'BeartypeCallHintParamViolation'
 RETURN_V = 'BeartypeCallHintReturnViolation'
-HEADER = ('import dataclasses\nfrom typing import Any, Optional, no_type_check\n'
-          'from beartype import beartype\n')
+HEADER = ('import dataclasses\nimport functools\nfrom typing import Any, Optional, no_type_check\n'
+          'from beartype import beartype\n'
+          # an ordinary functools.wraps-style pass-through decorator that amends the docstring and tags the closure:
+          # what beartype decorates is the CLOSURE (it is the "original" the wrapper must expose and mirror)
+          'def passthru(f):\n'
+          '    @functools.wraps(f)\n'
+          '    def closure(*args, **kwargs):\n'
+          '        return f(*args, **kwargs)\n'
+          "    closure.__doc__ = (f.__doc__ or '') + ' (amended)'\n"
+          "    closure.tag = 'tagged'\n"
+          '    return closure\n')
 
 
 def make_conf(label: str):
@@ -62,6 +71,8 @@ def render_fn(name: str, fn: dict, first: str | None, param: bool, ind: str, dec
         out.append(f'{ind}@beartype')
     if fn['ntc']:
         out.append(f'{ind}@no_type_check')
+    if fn.get('deco'):
+        out.append(f'{ind}@passthru')
     ps = [first] if first else []
     if param:
         ps.append({'none': 'x', 'ign': 'x: object', 'chk': f"x: {fn['hint']}"}[fn['ann']])
